@@ -225,7 +225,9 @@ func actionCodeReplaceTs(vnode *parser.RootVistor,
 	}
 	strComment = fmt.Sprintf(strComment,
 		fmt.Sprintf("%s -> %s\n %s\n",
-			leftPartString, rightPartString, oneRule.ActionCode))
+			leftPartString, rightPartString,
+			// the action text must not close the surrounding comment
+			strings.ReplaceAll(oneRule.ActionCode, "*/", "* /")))
 
 	str := oneRule.ActionCode
 	str = strings.ReplaceAll(str, "$$",
